@@ -50,7 +50,13 @@ def label(modes, ordering):
     return "".join("ds"[m] + ("" if nat else str(o)) for m, o in zip(modes, ordering))
 
 
-def reader_self(modes, ordering):
+def tensor_methods(ix):
+    """Methods and properties of class Tensor, for attribute look-up on the symbolic tensor (a reader may be
+    written in terms of another reader or of a helper property)."""
+    return {f.name: f.node for q, f in ix.funcs.items() if q == f"{T_MOD}.Tensor.{f.name}"}
+
+
+def reader_self(modes, ordering, ix=None):
     order = len(modes)
     dims = tuple(Poly.atom(f"D{d}") for d in range(order))
     table = tuple((SymList(f"pos{l}"), SymList(f"crd{l}")) for l in range(order))
@@ -64,6 +70,8 @@ def reader_self(modes, ordering):
         mode_ordering=tuple(ordering),
         cffi_tensor=cffi,
     )
+    if ix is not None:
+        me.attrs["__methods__"] = tensor_methods(ix)
     return me, dims
 
 
@@ -88,7 +96,7 @@ def one_path(fn, args, G):
 
 def check_taco_indices(ix, modes, ordering):
     fn = ix.func(f"{T_MOD}.Tensor.taco_indices").node
-    me, dims = reader_self(modes, ordering)
+    me, dims = reader_self(modes, ordering, ix)
     outs = one_path(fn, [me], READER_G)
     if len(outs) != 1 or outs[0][1][0] != "return":
         return [f"taco_indices: {[o[1] for o in outs][:2]}"]
@@ -112,7 +120,7 @@ def check_taco_indices(ix, modes, ordering):
 
 def check_taco_vals(ix, modes, ordering):
     fn = ix.func(f"{T_MOD}.Tensor.taco_vals").node
-    me, dims = reader_self(modes, ordering)
+    me, dims = reader_self(modes, ordering, ix)
     outs = one_path(fn, [me], READER_G)
     if len(outs) != 1 or outs[0][1][0] != "return":
         return [f"taco_vals: {[o[1] for o in outs][:2]}"]
@@ -126,7 +134,7 @@ def check_taco_vals(ix, modes, ordering):
 
 def check_items(ix, modes, ordering):
     fn = ix.func(f"{T_MOD}.Tensor.items").node
-    me, dims = reader_self(modes, ordering)
+    me, dims = reader_self(modes, ordering, ix)
     outs = one_path(fn, [me], READER_G)
     if len(outs) != 1 or outs[0][1][0] != "return":
         return [f"items: {[o[1] for o in outs][:2]}"]
@@ -712,13 +720,8 @@ def rule_api_semantics(ctx, ix):
     # pickling: __setstate__(__getstate__()) hands the validator exactly what the readers read
     probs = []
     for modes, ordering in (((0, 1), (1, 0)), ((1, 1, 0), (1, 2, 0)), ((), ())):
-        me, dims = reader_self(modes, ordering)
-        props = {}
-        for name in ("format", "taco_indices", "taco_vals"):
-            f = ix.funcs.get(f"{T_MOD}.Tensor.{name}")
-            if f is not None:
-                props[name] = f.node
-        me.attrs["__methods__"] = props
+        me, dims = reader_self(modes, ordering, ix)
+        props = me.attrs["__methods__"]
         G = {**TG, **READER_G, "Format": lambda m, o: S.make_format(tuple(m), tuple(o))}
         outs = list(S.explore_ev(meth("__getstate__"), [me], {}, G))
         if len(outs) != 1 or outs[0][1][0] != "return" or not isinstance(outs[0][1][1], dict):
